@@ -38,7 +38,7 @@ Families (case id = C03/<family>/<type>/<L0>,<L1>[-><O>]/<extents>/<cfg>):
   single, single-contraction, single-explicit, inner1     one-operand forms (LIN)
   expr, map                      operands given as unevaluated expressions / TensorMap
   CONTRACT_OPT=<n> variants carry the macro in the configuration tag (the macro is spelled CONTRACT_OPT, there is no
-  FASTOR_CONTRACT_OPT; documented values 1 and 2; internal values -1,-3 sampled in the thorough tier).
+  FASTOR_CONTRACT_OPT; documented values 1 and 2).
 Not generated because the unit is rejected by the compiler on the unchanged tree (set C03_INCLUDE_REJECTED=1 to generate them):
   outer-ext1   outer(a,b) with an operand of type Tensor<T,1>: the Tensor<T,1> overloads return Tensor<T,Rest...> without the
                extent-1 axis (result type differs from dims(a)...,dims(b)...), and outer(Tensor<T,1>,Tensor<T,1>) is ambiguous
@@ -46,6 +46,8 @@ Not generated because the unit is rejected by the compiler on the unchanged tree
   einsum-diag-rej, explicit-diag-rej   an internal repeat for which is_generalised_matrix_matrix indexes one of the index lists
                out of bounds in a constant expression (e.g. einsum<Index<2>,Index<3,2,3>>): hard compile error
   CONTRACT_OPT=-2   contraction.h:371 uses Index<>::NoIndices, which does not exist
+  CONTRACT_OPT=-1,-3   internal variants: 'unknown type name V' under FASTOR_DONT_VECTORISE (contraction.h:461, :327); -3 additionally
+               rejects reductions by static_assert and evaluates get_indices(..., -1) in a constant expression for some patterns
 """
 import os, re
 from units.common import *
@@ -361,9 +363,10 @@ def cases(tier, seed):
     for (L0, L1) in sample(rng, [p for p in diag if len(analyse(*p)[0]) >= 1], 60 if thorough else 8):
         ty, isa = next_combo(); add_pair(L0, L1, 'explicit', ty, isa, 'c++17')
     # --- CONTRACT_OPT variants of the loop nest --------------------------------------------------------------------
-    # documented values (comments in contraction.h): 1 and 2; the negative values select internal variants: -1 and -3 are
-    # sampled in the thorough tier only, -2 does not compile on the unchanged tree (Index<>::NoIndices) and is left out
-    for opt in ((1, 2, -1, -3) if thorough else (1, 2)) + ((-2,) if INCLUDE_REJECTED else ()):
+    # documented values (comments in contraction.h): 1 and 2.  The negative values select internal variants that are rejected by the
+    # compiler for many instantiations on the unchanged tree (-2: always, Index<>::NoIndices; -1/-3: 'unknown type name V' under
+    # FASTOR_DONT_VECTORISE, -3: static_assert on reductions / constexpr index -1): generated only with C03_INCLUDE_REJECTED=1
+    for opt in (1, 2) + ((-1, -2, -3) if INCLUDE_REJECTED else ()):
         sel = sample(rng, between, 40 if thorough else 12)
         for (L0, L1) in sel:
             free, _ = analyse(L0, L1)
